@@ -381,7 +381,7 @@ func (sc *Scope) pkgMember(pkg *types.Package, name string) (Val, bool) {
 		}
 	case *types.Var:
 		loc := sc.x.c.globalLoc(ShortName(pkg.Path() + "." + name))
-		return Val{T: sc.x.load(sc.st, o.Type(), loc), Ty: o.Type()}, true
+		return Val{T: sc.x.loadOwned(sc.st, o.Type(), loc, "global:"+ShortName(pkg.Path()+"."+name)), Ty: o.Type()}, true
 	}
 	return Val{}, false
 }
@@ -531,7 +531,7 @@ func (sc *Scope) unary(e EUnary) Val {
 	case "*":
 		v := sc.eval(e.X)
 		if pt, ok := v.Ty.Underlying().(*types.Pointer); ok {
-			return Val{T: sc.x.load(sc.st, pt.Elem(), v.T), Ty: pt.Elem()}
+			return Val{T: sc.x.loadOwned(sc.st, pt.Elem(), v.T, rawOwner(pt.Elem())), Ty: pt.Elem()}
 		}
 	case "&":
 		loc, ty := sc.lvalue(e.X)
@@ -754,7 +754,7 @@ func (sc *Scope) fieldOfVal(v Val, field string) Val {
 		if pt, ok := cur.Ty.Underlying().(*types.Pointer); ok {
 			st := pt.Elem().Underlying().(*types.Struct)
 			f := st.Field(i)
-			cur = Val{T: sc.x.load(sc.st, f.Type(), fld(cur.T, i)), Ty: f.Type()}
+			cur = Val{T: sc.x.loadOwned(sc.st, f.Type(), fld(cur.T, i), ownerName(pt.Elem())), Ty: f.Type()}
 			continue
 		}
 		st := cur.Ty.Underlying().(*types.Struct)
@@ -823,7 +823,7 @@ func (sc *Scope) index(e EIndex) Val {
 			return Val{T: x.load(sc.st, arr.Elem(), elt(a.T, sc.idxTerm(sc.eval(e.I)))), Ty: arr.Elem()}
 		}
 	case *types.Slice:
-		return Val{T: x.load(sc.st, u.Elem(), x.sliceElt(a.T, sc.idxTerm(sc.eval(e.I)))), Ty: u.Elem()}
+		return Val{T: x.loadOwned(sc.st, u.Elem(), x.sliceElt(a.T, sc.idxTerm(sc.eval(e.I))), rawOwner(u.Elem())), Ty: u.Elem()}
 	case *types.Basic:
 		if u.Info()&types.IsString != 0 {
 			return Val{T: sx("s_at", a.T, sc.idxTerm(sc.eval(e.I))), Ty: types.Typ[types.Uint8]}
